@@ -299,11 +299,12 @@ pub struct Gen {
     emitted: usize,
     /// 0 = not decided, 1 = hold the acknowledgements first, 2 = issue the filler, 3 = done / off
     fill_stage: u8,
+    fill_wait: usize,
 }
 
 impl Gen {
     pub fn new(seed: u64, p: Profile) -> Self {
-        Gen { rng: Rng::new(seed), p, tag: 0, conns: 0, dead_ops: 0, was_live: false, next_spid: 1, steps_left: 60, forced_fault: None, forced_cancel: None, emitted: 0, fill_stage: 0 }
+        Gen { rng: Rng::new(seed), p, tag: 0, conns: 0, dead_ops: 0, was_live: false, next_spid: 1, steps_left: 60, forced_fault: None, forced_cancel: None, emitted: 0, fill_stage: 0, fill_wait: 0 }
     }
 
     fn cancel(&mut self) -> Option<usize> {
@@ -844,7 +845,14 @@ impl Gen {
         self.was_live = true;
         // the arena filler (see `Profile::fill_arena_pct`)
         if self.fill_stage == 0 {
-            self.fill_stage = if self.conns == 1 && v.snap.tx.retained.is_empty() && self.rng.chance(self.p.fill_arena_pct, 100) { 1 } else { 3 };
+            // (right away, or a few operations into the first connection: then the arena fills up
+            // next to packets and exchanges that are already under way)
+            self.fill_stage = if self.conns == 1 && self.rng.chance(self.p.fill_arena_pct, 100) { 1 } else { 3 };
+            self.fill_wait = if self.rng.chance(1, 2) { 0 } else { self.rng.below(10) };
+        }
+        if self.fill_stage == 1 && self.fill_wait > 0 && self.conns == 1 {
+            self.fill_wait -= 1;
+            return Some(self.live_step(v));
         }
         if self.fill_stage == 1 {
             self.fill_stage = 2;
@@ -852,7 +860,7 @@ impl Gen {
         }
         if self.fill_stage == 2 {
             self.fill_stage = 3;
-            let tx = v.log.cfg.tx;
+            let tx = v.snap.tx.capacity.saturating_sub(v.snap.tx.retained.iter().map(|e| e.len).sum::<usize>());
             let leave = self.rng.below(41);
             // PUBLISH "f": 1 + remaining-length bytes + 2 + 1 (topic) + 2 (identifier) + 1 (property length) + payload
             let total = tx.saturating_sub(leave);
